@@ -458,6 +458,19 @@ async fn run(plan: C12Plan) -> RunOutcome {
                         }
                     }
                 }
+                // (c') ... nor is it thrown away: when the log has just grown up to the sequence of a ground-truth
+                // write that was delivered less than the buffer timeout ago (a retry of an expired request, say),
+                // that write is applied too, not dropped with its reply handle
+                if applied as usize > prev_log.len() {
+                    for m in &sent {
+                        if !m.conflict && m.first_seq == applied && m.answered_op == Some(oi) && m.delivered_op < oi && now_ms.saturating_sub(m.sent_at_ms) < plan.buffer_timeout_ms && matches!(*m.reply.lock().unwrap(), Some(Reply::Lost(_))) {
+                            let no_rival = !sent.iter().any(|o| o.first_seq == m.first_seq && o.txn_id != m.txn_id && o.delivered_op < oi);
+                            if no_rival {
+                                violation!("buffered-write-dropped", "PartitionReplicatorActor", "next-expected", format!("op {oi}: the log grew to {applied} events and the write for sequence {applied}, delivered {} ms ago (buffer timeout {} ms), was dropped with its reply handle instead of being applied", now_ms - m.sent_at_ms, plan.buffer_timeout_ms));
+                            }
+                        }
+                    }
+                }
                 for e in log.iter().skip(prev_log.len()) {
                     chain.push_u64(e.0);
                     chain.push(e.1.as_bytes());
